@@ -136,8 +136,12 @@ fn sleeper(c: ChanRef, steps: u32, with_read: bool) -> BoxFut {
         let mut left = steps;
         while left > 0 {
             left -= 1;
-            match choose(if with_read { 4 } else { 3 }, "guest-act") {
+            match choose(if with_read { 5 } else { 3 }, "guest-act") {
                 0 => break,
+                // leave an operation registered: if the body ends now the task
+                // stays suspended without Rust work (sleep state POLLING/WOKEN)
+                // while its waker is still in the channel
+                4 => crate::scen::leave_registered().await,
                 1 => match Recv(c.clone()).await {
                     Some(v) => fact("recv", v as u64, 0, vec![]),
                     None => {
